@@ -6,6 +6,9 @@
 //    a request over the size limit gets 413 when the crossing segment arrives (the client stops
 //    there) and the NEXT request on that connection must again be parsed as on a fresh one.  The same
 //    after an error response to a request written in one piece, and after a 500 for a handler that threw.
+//    One complete request in five follows a request whose handler armed a response time-out and parked
+//    the writer (answered by nobody; the time-out answers 408): it is written with a pause that spans
+//    the expiry, i.e. the predecessor's timer fires while this request is half received.
 //    Domain: exactly one message per element is written (bytes a mutation leaves after the end of
 //    the message are trimmed: on a live connection they are the next message), and an element that
 //    is over the limit AND already an error/complete at a point the server can see is not sent.
@@ -14,6 +17,7 @@
 #include "common/msggen.h"
 #include "common/netkit.h"
 
+#include <atomic>
 #include <mutex>
 
 using namespace verif;
@@ -29,6 +33,12 @@ namespace
         return "D=" + std::to_string(fnv1a(d)) + ";B=" + std::to_string(r.body().size());
     }
 
+    // response writers whose handler armed a response time-out and did not answer (the way a handler does that
+    // hands the writer to a worker pool); destroyed by the harness long after their expiry
+    std::mutex g_parked_m;
+    std::vector<std::pair<double, std::shared_ptr<Http::ResponseWriter>>> g_parked;
+    std::atomic<int> g_armed { 0 };
+
     class Handler : public Http::Handler
     {
     public:
@@ -38,6 +48,17 @@ namespace
             if (req.resource() == "/__probe")
             {
                 w.send(Http::Code::Ok, "alive");
+                return;
+            }
+            if (req.resource().rfind("/__timed/", 0) == 0)
+            {
+                w.timeoutAfter(std::chrono::milliseconds(atoi(req.resource().c_str() + 9)));
+                auto keep = std::make_shared<Http::ResponseWriter>(std::move(w));
+                {
+                    std::lock_guard<std::mutex> g(g_parked_m);
+                    g_parked.emplace_back(net::now_s(), keep);
+                }
+                ++g_armed;
                 return;
             }
             // about one request in eleven makes the handler throw (decided by what was parsed, so that the
@@ -103,6 +124,19 @@ namespace verif
 
     Verdict run_case(const uint8_t* data, size_t size, Report& rep)
     {
+        {
+            // parked writers whose time-out expired long ago
+            std::vector<std::shared_ptr<Http::ResponseWriter>> gone;
+            std::lock_guard<std::mutex> g(g_parked_m);
+            for (auto it = g_parked.begin(); it != g_parked.end();)
+                if (net::now_s() - it->first > 1.0)
+                {
+                    gone.push_back(it->second);
+                    it = g_parked.erase(it);
+                }
+                else
+                    ++it;
+        }
         Choices c(data, size);
         static const size_t limits[] = { 256, 512, 1024, 4096 }; // small ones so that generated bodies land on both sides
         size_t limit                 = limits[c.pick(4)];
@@ -260,7 +294,35 @@ namespace verif
                 rep.label("server:413-then-next");
                 continue;
             }
-            net::send_segmented(fd, m.wire, cuts, 300);
+            // derived from the bytes (no choice consumed): this complete request follows one whose response time-out
+            // expires while it is half received
+            bool timed_pred = want.kind == Outcome::Done && m.wire.size() >= 2 && fnv1a(m.wire, 77) % 5 == 0;
+            bool saw_408    = false;
+            if (timed_pred)
+            {
+                const int ms = 60;
+                int before   = g_armed.load();
+                net::send_all(fd, "GET /__timed/" + std::to_string(ms) + " HTTP/1.1\r\nHost: x\r\n\r\n");
+                V_CHECK(net::wait_for([&] { return g_armed.load() > before; }, 4000), P + "/timing/no-response", what + ": the preceding request (handler arms a response time-out) never reached the handler");
+                if (cuts.empty())
+                    cuts.push_back(m.wire.size() / 2);
+                size_t at = cuts[fnv1a(m.wire, 78) % cuts.size()];
+                std::vector<size_t> c1, c2;
+                for (size_t e : cuts)
+                    if (e < at)
+                        c1.push_back(e);
+                    else if (e > at)
+                        c2.push_back(e - at);
+                net::send_segmented(fd, m.wire.substr(0, at), c1, 300);
+                net::sleep_ms(ms + 45); // the predecessor's time-out expires here: 408 for it, and nothing else
+                net::send_segmented(fd, m.wire.substr(at), c2, 300);
+                what += " [written around the expiry of the preceding request's response time-out, pause after byte " + std::to_string(at) + "]";
+                desc += "(after-parked-timeout) ";
+                rep.label("server:request-half-received-when-predecessor-times-out");
+                nontrivial = true;
+            }
+            else
+                net::send_segmented(fd, m.wire, cuts, 300);
             if (want.kind == Outcome::Again)
             {
                 // incomplete by construction (e.g. truncated): the server must simply wait; the history ends
@@ -273,8 +335,23 @@ namespace verif
             net::Message r;
             std::string err;
             bool ok = net::read_message(fd, carry, true, r, 4000, err);
+            if (ok && timed_pred && r.status == 408)
+            {
+                // the predecessor's 408 (it may also come after this request's answer if the machine is slow)
+                saw_408 = true;
+                ok      = net::read_message(fd, carry, true, r, 4000, err);
+            }
             V_CHECK(ok, want.kind == Outcome::Done ? P + "/timing/no-response" : P + "/timing/no-error-response",
                     what + ": " + err + " (one-shot outcome: " + want.str().substr(0, 60) + ")");
+            if (timed_pred && !saw_408)
+            {
+                net::Message late;
+                std::string e2;
+                if (net::read_message(fd, carry, true, late, 1500, e2) && late.status == 408)
+                    saw_408 = true;
+                else
+                    rep.label("server:parked-timeout-gave-no-408"); // not C04's business; counted
+            }
             if (want.kind == Outcome::Done && Handler::throws_for(want_hash))
             {
                 V_CHECK(r.status == 500 && r.body == "boom", P + "/handler-exception-not-500", what + ": the handler threw std::runtime_error(\"boom\") but the response is " + std::to_string(r.status) + " \"" + printable(r.body, 60) + "\"; earlier on this connection: " + desc);
